@@ -252,7 +252,7 @@ static int errno_by_name(const char *s)
   static const struct { const char *n; int v; } t[] = {
     {"ENOSPC", ENOSPC}, {"EIO", EIO}, {"EMFILE", EMFILE}, {"ENFILE", ENFILE}, {"EEXIST", EEXIST}, {"ENOENT", ENOENT},
     {"EACCES", EACCES}, {"EINTR", EINTR}, {"ENOMEM", ENOMEM}, {"EDQUOT", EDQUOT}, {"EAGAIN", EAGAIN}, {"EPIPE", EPIPE},
-    {"EROFS", EROFS}, {"EFBIG", EFBIG}, {"EMLINK", EMLINK}, {"EBUSY", EBUSY}, {"ENOTDIR", ENOTDIR}, {"EISDIR", EISDIR}, {0, 0} };
+    {"EPERM", EPERM}, {"EINVAL", EINVAL}, {"ENOSYS", ENOSYS}, {"EROFS", EROFS}, {"EFBIG", EFBIG}, {"EMLINK", EMLINK}, {"EBUSY", EBUSY}, {"ENOTDIR", ENOTDIR}, {"EISDIR", EISDIR}, {0, 0} };
   int i;
   for (i = 0; t[i].n; i++) if (!strcmp(t[i].n, s)) return t[i].v;
   return atoi(s) ? atoi(s) : EIO;
@@ -801,8 +801,18 @@ void _exit(int c)
   for (;;) ;
 }
 
+/* NQV_IDFAIL=<call>:<errno name>[,...]: the named identity call fails with that errno instead of being made */
+static int idfail_for(const char *name)
+{
+  const char *e = getenv("NQV_IDFAIL"); size_t l = strlen(name);
+  while (e && *e) {
+    if (!strncmp(e, name, l) && e[l] == ':') { char b[32]; size_t k = 0; e += l + 1; while (*e && *e != ',' && k + 1 < sizeof b) b[k++] = *e++; b[k] = 0; return errno_by_name(b); }
+    e = strchr(e, ','); if (e) e++;
+  }
+  return 0;
+}
 #define IDCALL(name, proto, args, fmt) \
-  int name proto { int r; shim_init(); NEED(name); r = r_##name args; \
+  int name proto { int r, fe; shim_init(); NEED(name); fe = idfail_for(#name); if (fe) { r = -1; errno = fe; } else r = r_##name args; \
     if (inited && has(trace, 'i')) { int se = errno; struct ev e; ev_begin(&e, #name); fmt; post('i', &e, 0, r, se); errno = se; } return r; }
 IDCALL(setuid, (uid_t u), (u), ev_int(&e, "id", u))
 IDCALL(setgid, (gid_t g), (g), ev_int(&e, "id", g))
